@@ -185,6 +185,33 @@ let rec run_case (kind : string) (body : sexp list) : string * string =
       let h = List.map bop_of (args (List.nth body 2)) in
       (show_bobs_list (brun (bsubj0 init) h),
        if size_ok false (sops_of h) then show_bobs_list (abrun (asub0, init) h) else "UNSPECIFIED")
+  | "group_by" when atom_opt (List.nth body 1) = Some "chunk2" || List.length body > 3 ->
+      (* variants outside the pure-key / whole-stream family: a key function with a state of its own (the n-th item's key is
+         n / 2: it must be called once per item), and take(N) on the stream of groups (groups announced before the cut keep
+         receiving their items and the terminal; later keys are announced to nobody) *)
+      let calls = slot (List.map ev_of (args (List.nth body 2))) in
+      let chunk = atom_opt (List.nth body 1) = Some "chunk2" in
+      let key = if chunk then (fun v -> match v with VP (VZ p, _) -> z_of_int_val (int_of_z p / 2) | x -> x)
+                else apply_fn (fn_of (List.nth body 1)) in
+      let calls' = if chunk then List.mapi (fun i e -> match e with Next v -> Next (VP (VZ (z_of_int i), v)) | x -> x) calls else calls in
+      let strip v = if chunk then (match v with VP (_, x) -> x | x -> x) else v in
+      let gevs = List.map (function GItem (k, v) -> GItem (k, strip v) | x -> x) (run_group_by key calls') in
+      let gevs = (match List.nth_opt body 3 with
+          | Some (List [Atom "take"; n]) ->
+              let n = int_of n in
+              let announced = ref [] and cut = ref (n = 0) in
+              let out = ref (if n = 0 then [OuterTerm Done] else []) in
+              List.iter (fun g -> match g with
+                  | Announce k ->
+                      if not !cut then begin
+                        announced := k :: !announced; out := g :: !out;
+                        if List.length !announced = n then (cut := true; out := OuterTerm Done :: !out)
+                      end
+                  | GItem (k, _) | GTerm (k, _) -> if List.exists (fun a -> val_eqb a k) !announced then out := g :: !out
+                  | OuterTerm _ -> if not !cut then out := g :: !out) gevs;
+              List.rev !out
+          | _ -> gevs) in
+      (show_gevs gevs, "UNSPECIFIED")
   | "group_by" ->
       let key = apply_fn (fn_of (List.nth body 1)) in
       let calls = slot (List.map ev_of (args (List.nth body 2))) in
@@ -537,6 +564,12 @@ let gev_of (s : sexp) : gev =
 (* verdict on the implementation's trace: None when the case kind has no predicate oracle *)
 let oracle (kind : string) (body : sexp list) (impl : string) : string option =
   match kind with
+  | "group_by" when atom_opt (List.nth body 1) = Some "chunk2" || List.length body > 3 ->
+      (* judged against the model's trace: every item to the group of its key (a key evaluated once per item), groups
+         announced before a cut of the stream of groups still served *)
+      let (m, _) = run_case kind body in
+      if impl = m then Some "ok"
+      else Some "reject:C20 an item not delivered exactly once to the group of its key, a group announced twice or not at all, or a terminal missing"
   | "group_by" ->
       if String.length impl >= 5 && String.sub impl 0 5 = "PANIC" then Some "reject:panic" else
       let key = apply_fn (fn_of (List.nth body 1)) in
